@@ -153,6 +153,17 @@ def bounded_entries():
              ((0, P - 1), (-128, 127)), ((0, P - 1), (2**128, 2**128 + 10)),
              ((0, P - 1), (5, 2**100)), ((0, P - 1), (7, 7)),
              ((0, P - 1), (-2**128 - 3, -2**128 + 3)), ((0, P - 1), (-1, -1))]
+    # felt252 downcast grid: range sizes up to the (P % u128::MAX) limit, placed at the positions
+    # the range-reduction code distinguishes (at 0, ending at 2^128 - 1 / 2^128, starting at
+    # 2^128, negative, straddling 0, near the top of the signed felt range)
+    lim = P % (2**128 - 1)
+    for size in (1, 16, 2**64, 2**122, lim - 2, lim - 1):
+        for lo in (0, 1, -size // 2, -size, 2**128 - size, 2**128 - size + 1, 2**128 - size - 1,
+                   2**128, 2**127, -2**128, 2**200, -(2**200), P // 2 - size - 3):
+            hi = lo + size - 1
+            if ((0, P - 1), (lo, hi)) in casts or hi - lo + 1 >= lim or hi > P // 2 or lo < -(P // 2):
+                continue
+            casts.append(((0, P - 1), (lo, hi)))
     for j, ((a, b), (c, d)) in enumerate(casts):
         src = "felt252" if (a, b) == (0, P - 1) else bi(a, b)
         dst = bi(c, d)
